@@ -44,7 +44,8 @@ Window(p, i) ==
   LET L  == p[i][2]
       na == NextArr(p, i)
   IN [link |-> L, ae |-> p[i][3],
-      ce |-> TimeAt(p, ClearOf(p, i, L)),
+      \* tail inside L: its Clear(L) node; a train longer than L has none and counts as inside only when it leaves
+      ce |-> LET c == ClearOf(p, i, L) IN IF c = 0 THEN ExitT(p) ELSE p[c][3],
       ax |-> IF na = 0 THEN ExitT(p) ELSE p[na][3],
       \* the tail leaves L when it passes the entry of the next link; a train longer than the rest of its route has
       \* no such event (no Clear node for the next link in its plan at all): it then holds L until it leaves the network
@@ -148,7 +149,7 @@ CONSTANTS NT,          \* number of trains
           Depart,      \* [1..NT -> Nat]
           S, U, O,     \* spacing, start-up, lockout overlap margin
           Horizon,
-          Rules        \* gating rules in force: {"flip","lock","prevce","lead","quiet","spacing"} = the code; fault configs drop one
+          Rules        \* gating rules in force: {"flip","lock","prevce","lead","quiet","spacing","exitce"} = the code; fault configs drop one
 
 VARIABLES auth,    \* [Links -> Seq([tr, ae, ax, ce, cx])]: link_disp_auths without the sentinel
           route,   \* [1..NT -> index into Routes[t]]
@@ -168,6 +169,15 @@ LastCx(l) == IF auth[l] = <<>> THEN -1 ELSE LastOf(l).cx
 MyIdx(l, t) == SetMaxI({i \in 1..Len(auth[l]) : auth[l][i].tr = t})
 PrevArrPos(t, n) == LET I == {i \in 1..(n-1) : Path(t)[i].k = 1} IN IF I = {} THEN 0 ELSE SetMaxI(I)
 PrevClrPos(t, n) == LET I == {i \in 1..(n-1) : Path(t)[i].k = 2} IN IF I = {} THEN 0 ELSE SetMaxI(I)
+
+\* update_occupancy, exit branch: a train that leaves the network releases every link it still holds; with the rule
+\* "exitce" (the repaired code) its tail also counts as inside each of them from then on
+ExitRelease(a, t, tau) ==
+  [l \in Links |-> [i \in 1..Len(a[l]) |->
+     IF a[l][i].tr = t /\ a[l][i].cx = INF
+     THEN [a[l][i] EXCEPT !.cx = tau, !.ax = Min2(@, tau),
+                          !.ce = IF "exitce" \in Rules THEN Min2(@, tau) ELSE @]
+     ELSE a[l][i]]]
 
 Init == /\ auth = [l \in Links |-> <<>>]
         /\ route = [t \in 1..NT |-> 1]
@@ -201,8 +211,10 @@ Advance(t) ==
                     lg   == IF lockcx = {} THEN 0 ELSE SetMaxI({IF c >= 0 /\ c < INF THEN c + O + U ELSE 0 : c \in lockcx})
                     tau  == Max2(Max2(Max2(base, gate), lg), IF lead.cx >= 0 /\ lead.cx < INF THEN lead.cx + Sp ELSE 0)
                     a1   == IF fl = 0 THEN auth ELSE [auth EXCEPT ![fl][MyIdx(fl, t)].ax = tau]
+                    a2   == [a1 EXCEPT ![L] = Append(@, NewAuth(t, tau))]
                 IN /\ tau <= Horizon
-                   /\ auth' = [a1 EXCEPT ![L] = Append(@, NewAuth(t, tau))]
+                   \* a train longer than its last link ends on an Arrive node: it leaves the network here
+                   /\ auth' = IF n = Len(Path(t)) THEN ExitRelease(a2, t, tau) ELSE a2
                    /\ T' = [T EXCEPT ![t] = Append(@, tau)]
         ELSE
           LET cp == PrevClrPos(t, n)
